@@ -299,4 +299,105 @@ open Qhttp.C05.Ex in
 example : holds envX (scEx false) ((Scenario.run envX (scEx false).scenario).log ++ [.pr 2 []]) = false := by
   decide +kernel
 
+/-! ### the `soft` scenarios: a refusing middleware answers itself and leaves the connection open -/
+
+open Qhttp.RouteSoftL in
+/-- **C06.3 for soft refusals (`holds_run_soft`)**: the same predicate on the run of
+    `RouteScn.softScenario`, for every environment and every `route` scenario, no side condition.
+    After a soft refusal the client receives exactly the refuser's response (403, its `X-Mw` mark,
+    `Content-Length: 6`, "denied"): routing adds nothing, no handler runs, and the request-side
+    signals of the connection that stays open carry no routing observation. -/
+theorem holds_run_soft (env : Env) (sc : RouteScn) :
+    holds env sc (Scenario.run env sc.softScenario).log = true := by
+  cases hroot : sc.root with
+  | none =>
+    rw [softScenario_eq_of_noRoot sc hroot]
+    exact holds_run env sc
+  | some r =>
+    obtain ⟨pre, hpre, ⟨t, ht, hr, _⟩ | ⟨id, hr, _⟩⟩ := route_cases sc.matcher r (sc.p16.drop 1)
+    · rw [softScenario_eq_of_terminal sc hroot hpre ht hr]
+      exact holds_run env sc
+    · unfold holds
+      have hrun : Scenario.run env sc.softScenario =
+          Sock.run env sc.softApp [.new, .feed sc.stream, .turn] := rfl
+      cases hacc : C05.accepted env sc with
+      | false =>
+        simp only [Bool.not_false, if_true]
+        obtain ⟨head, rest, hb⟩ := C05.stream_breaks sc
+        rw [hrun, run_bad env sc.softApp sc.stream hb (not_accepted_bad env sc hacc hb)]
+        simp only [mwsOf_append, mwsOf_cons, mwsOf_wObs]
+        simp [mwsOf]
+      | true =>
+        simp only [Bool.not_true, Bool.false_eq_true, if_false]
+        obtain ⟨head, rest, rh, p, q, hb, hp, hu⟩ := (C05.accepted_iff env sc).1 hacc
+        obtain ⟨X, Y, hX, hY, hlog⟩ := run_soft_refusal env sc hroot hpre hr hb hp hu
+        have hacts : sc.acts = some (route sc.matcher r (sc.p16.drop 1)) := by
+          simp [RouteScn.acts, serverRoute, hroot]
+        simp only [hacts]
+        rw [hlog, hr]
+        have e : pre.map mwAct ++ [Act.mw id false] = (pre ++ [(id, false)]).map mwAct := by simp [mwAct]
+        have h1 : mwActs (pre.map mwAct ++ [Act.mw id false]) = pre ++ [(id, false)] := by
+          rw [e, mwActs_map_mwAct]
+        have h2 : refuser (pre.map mwAct ++ [Act.mw id false]) = some id := by
+          rw [refuser, h1, findRefuser_append_of_accept hpre]; rfl
+        have mX : mwsOf X = [] := filterMap_quiet _ rfl rfl hX
+        have mY : mwsOf Y = [] := filterMap_quiet _ rfl rfl hY
+        have pX : C05.prs X = [] := filterMap_quiet _ rfl rfl hX
+        have pY : C05.prs Y = [] := filterMap_quiet _ rfl rfl hY
+        have m : mwsOf ([Obs.ev 0, Obs.ev 1, Obs.hp] ++ (pre.map mwObs ++ softObs id) ++ X ++ [Obs.ev 2] ++ Y) =
+            pre ++ [(id, false)] := by
+          simp only [mwsOf_append, mwsOf_mwObs, mX, mY, softObs, mwsOf_cons]; simp [mwsOf]
+        have pz : C05.prs ([Obs.ev 0, Obs.ev 1, Obs.hp] ++ (pre.map mwObs ++ softObs id) ++ X ++ [Obs.ev 2] ++ Y) =
+            [] := by
+          simp only [C05.prs_append, C05.prs_mwObs, pX, pY, softObs, C05.prs_cons]; simp [C05.prs]
+        have w : Obs.wire ([Obs.ev 0, Obs.ev 1, Obs.hp] ++ (pre.map mwObs ++ softObs id) ++ X ++ [Obs.ev 2] ++ Y) =
+            headOf 403 (statusReason 403) (softHdrs id) ++ RouteScn.DENIED := by
+          simp only [wire_append, wire_mwObs, wire_quiet hX, wire_quiet hY, wire_softObs, C05.wire_cons]
+          simp [Obs.wire]
+        rw [h1, h2, m, pz, w]
+        obtain ⟨p1, p2⟩ := parse_headOf (c := 403) (by decide) (reason := statusReason 403) (by decide)
+          (hs := softHdrs id) (softHdrs_ok id) RouteScn.DENIED
+        rw [p1]
+        simp only [p2]
+        have v1 : Http.valuesOf RouteScn.X_MW (softHdrs id) = [natDigits id] := by
+          apply valuesOf_single (a := [_]) (b := []) (by decide) (natDigits_no_comma id)
+          · intro e he; simp at he; subst he; (dsimp only; decide)
+          · intro e he; cases he
+        have v2 : Http.valuesOf C05.LOCATION (softHdrs id) = [] := by
+          apply valuesOf_none
+          intro e he; simp [softHdrs] at he; rcases he with rfl | rfl <;> (dsimp only; decide)
+        have v3 : Http.valuesOf Sock.CONTENT_LENGTH (softHdrs id) = [natDigits 6] := by
+          apply valuesOf_single (a := []) (b := [_]) (by decide) (natDigits_no_comma _)
+          · intro e he; cases he
+          · intro e he; simp at he; subst he; (dsimp only; decide)
+        have hl : RouteScn.DENIED.length = 6 := rfl
+        rw [v1, v2, v3, hl]
+        simp
+
+/-! non-vacuity: a soft refusal on a concrete run of the model -/
+open Qhttp.C05.Ex in
+example : refuser (route toyM (.mk 0 [(7, false)] [] .nil true) [120]) = some 7 ∧
+    holds envX scSoft (Scenario.run envX scSoft.softScenario).log = true := by decide +kernel
+-- the three-level tree, refusal at depth 2, softly
+open Qhttp.C05.Ex in
+example : holds envX (scEx false) (Scenario.run envX (scEx false).softScenario).log = true := by decide +kernel
+-- `holds` rejects the soft run once a handler observation follows the refusal
+open Qhttp.C05.Ex in
+example : holds envX scSoft ((Scenario.run envX scSoft.softScenario).log ++ [.pr 0 []]) = false := by
+  decide +kernel
+-- … and once anything more reaches the client after the refuser's body (length no longer matches)
+open Qhttp.C05.Ex in
+example : holds envX scSoft ((Scenario.run envX scSoft.softScenario).log ++ [.w [33]]) = false := by
+  decide +kernel
+
+/-- the same request with bytes after the head (a target that contains the end of the head): the
+    connection stays open, so `readyRead` is signalled (at the read and again at the turn) — the
+    quiet stretches `X`, `Y` of `RouteSoftL.run_soft_refusal` are not always empty -/
+def scSoftBody : RouteScn :=
+  { C05.Ex.scSoft with raw := lit ['/','x',' ','H','T','T','P','/','1','.','1','\r','\n','\r','\n','z','z'] }
+open Qhttp.C05.Ex in
+example : C05.accepted envX scSoftBody = true ∧
+    (Scenario.run envX scSoftBody.softScenario).log.filter Obs.isRr = [.rr, .rr] ∧
+    holds envX scSoftBody (Scenario.run envX scSoftBody.softScenario).log = true := by decide +kernel
+
 end Qhttp.C06
